@@ -138,6 +138,10 @@ def run(ctx, rep):
     from rules import pipeline_rules as _P
     _P.limiter_machine(rep, lib, rid="C14-LIMITER-MACHINE")
     _P.limiter_wiring(rep, lib, rid="C14-LIMITER-WIRING")
+    # the limiter can only answer Break on a row it is shown: no stage in front of it keeps rows back on its own account
+    _P.withhold(rep, lib, rid="C14-WITHHOLD")
+    from rules import c10 as _c10
+    common.share(_c10, ctx, rep, {"C10-FIRST-ONLY"})
     from rules import c16
     c16.raw_io(rep, lib, side="input")
     c16.eof_distinct(rep, lib)
